@@ -709,7 +709,7 @@ func runC37() int {
 				desc := map[string]any{"history": s.B.H.Name, "template": t.ID, "vars": cs.bind, "requestParams": json.RawMessage(orNull(cs.ov)), "templateParams": json.RawMessage(orNull(t.Params)), "paginationConfig": cs.cfg}
 				report := func(scope, kind, what string, extra map[string]any) {
 					sig := fmt.Sprintf("C37:%s:%s", scope, kind)
-					rp := map[string]any{"history": s.B.H, "template": t, "directFilter": t.Direct(cs.full)}
+					rp := map[string]any{"history": s.B.H, "templateDefinition": t, "directFilter": t.Direct(cs.full)}
 					for k, v := range desc {
 						if k != "history" {
 							rp[k] = v
